@@ -27,7 +27,12 @@ const (
 	OpClose
 	OpCloseProvider
 	OpCancel // cancel the context the scope was created with, then wait (bounded) until it is disposed
+	// OpGetForeignKey: GetKeyed with a key that is NOT the registered name: a value of another Go
+	// type with the same underlying string (type altKey string), which no registration has
+	OpGetForeignKey
 )
+
+type altKey string
 
 // Op is one scripted operation. Scope 0 is the provider itself (its root scope).
 type Op struct {
@@ -67,6 +72,8 @@ func (o Op) String() string {
 		return "provider.Close"
 	case OpCancel:
 		return sc + ".cancel-ctx"
+	case OpGetForeignKey:
+		return fmt.Sprintf("%s.GetKeyed(%s, altKey(%q)) [a defined string type, not the registered string]", sc, o.Type, o.Key)
 	}
 	return "?"
 }
@@ -453,6 +460,8 @@ func (r *Run) Do(o Op) OpResult {
 			default:
 				val, err = tgt.Get(t)
 			}
+		case OpGetForeignKey:
+			val, err = tgt.GetKeyed(pool.T(o.Type), altKey(o.Key))
 		case OpGetGroup:
 			if o.Generic {
 				vals, err = pool.ResolveGroupFn[o.Type](tgt, o.Group)
@@ -538,6 +547,11 @@ func (r *Run) Do(o Op) OpResult {
 				}
 			}
 			r.verifyKept(opIdx)
+			if o.Kind == OpGetForeignKey {
+				r.mu.Lock()
+				r.sliceFs = append(r.sliceFs, Finding{"foreign-key-served", "", fmt.Sprintf("op%d %s returned a service although nothing is registered under that key (keys are compared as values: a different Go type is a different key)", opIdx, o.String())})
+				r.mu.Unlock()
+			}
 			if r.KeepValues {
 				if o.Kind == OpGetGroup {
 					res.Value = vals
